@@ -5,3 +5,4 @@ import DDProofs.Inv
 import DDProofs.RefCount
 import DDProofs.GcStep
 import DDProofs.GcLoop
+import DDProofs.GcSpec
